@@ -660,7 +660,7 @@ func (p *Parser) parseOnConflictClause() (*ast.OnConflict, error) {
 		}
 		p.advance() // Consume )
 		onConflict.Target = targets
-	} else if p.isType(models.TokenTypeOn) && p.peekToken().Literal == "CONSTRAINT" {
+	} else if p.isType(models.TokenTypeOn) && strings.EqualFold(p.peekToken().Literal, "CONSTRAINT") {
 		// ON CONSTRAINT constraint_name
 		p.advance() // Consume ON
 		p.advance() // Consume CONSTRAINT
@@ -671,14 +671,14 @@ func (p *Parser) parseOnConflictClause() (*ast.OnConflict, error) {
 		p.advance()
 	}
 
-	// Parse DO keyword
-	if p.currentToken.Literal != "DO" {
+	// Parse DO keyword (keywords are case-insensitive: on conflict do nothing)
+	if !strings.EqualFold(p.currentToken.Literal, "DO") {
 		return nil, p.expectedError("DO")
 	}
 	p.advance() // Consume DO
 
 	// Parse action: NOTHING or UPDATE
-	if p.currentToken.Literal == "NOTHING" {
+	if strings.EqualFold(p.currentToken.Literal, "NOTHING") {
 		onConflict.Action = ast.OnConflictAction{DoNothing: true}
 		p.advance() // Consume NOTHING
 	} else if p.isType(models.TokenTypeUpdate) {
